@@ -25,22 +25,23 @@ from . import lib
 sys.path.insert(0, os.path.join(lib.ROOT, "gen"))
 import undef_tables  # noqa: E402
 
-RULE = ("exhaustive: 8 undefined types (Undefined, Chainable, Debug, Strict and make_logging_undefined of each) x 4 "
-        "origins (missing name, missing attribute, missing item, explicit hint) x 213 operations (21 unary/protocol "
-        "operations, `x in u` for 8 other operands, `u in str/list/dict`, 7 arithmetic and 6 comparison operators x "
-        "both operand orders x 8 other operands: int float str None list Markup same-class-undefined plain-Undefined) x "
+RULE = ("exhaustive: 8 undefined types (Undefined, Chainable, Debug, Strict and make_logging_undefined of each) x 5 "
+        "origins (missing name, missing attribute, missing item, explicit hint, sandbox-refused attribute with exc=SecurityError) x 213 operations (21 unary/protocol "
+        "operations, `x in u` for 12 other operands, `u in str/list/dict`, 7 arithmetic and 6 comparison operators x "
+        "both operand orders x 12 other operands: int float str None list Markup bool tuple dict bytes same-class-undefined plain-Undefined) x "
         "execution path (direct python; through a compiled template when a template form exists). distinct = "
         "(type, origin, operation, path); non-trivial = every case (each executes the operation on a real object "
         "and compares outcome, message and log events with the model); cells outside the documented domain are "
         "compared with the model only.")
 
 CLASSES = ["NBU", "NBC", "NBD", "NBS", "LBU", "LBC", "LBD", "LBS"]
-OTHERS = ["int", "float", "str", "none", "list", "markup", "same", "plain"]
+OTHERS = ["int", "float", "str", "none", "list", "markup", "bool", "tuple", "dict", "bytes", "same", "plain"]
 ARITH = {"add": "+", "sub": "-", "mul": "*", "div": "/", "floordiv": "//", "mod": "%", "pow": "**"}
 CMP = {"eq": "==", "ne": "!=", "lt": "<", "le": "<=", "gt": ">", "ge": ">="}
 UNARY = ["str", "bool", "iter", "aiter", "len", "hash", "pos", "neg", "int", "float", "call", "callt", "getattr", "getdunder",
          "getitem", "isdefined", "isundefined", "default", "copy", "deepcopy", "pickle"]
-ORIGINS = {"name": "missing_var", "attr": "obj.missing_attr", "item": "seq[7]", "hint": "(empty_seq|first)"}
+ORIGINS = {"name": "missing_var", "attr": "obj.missing_attr", "item": "seq[7]", "hint": "(empty_seq|first)",
+           "unsafe": "obj.__class__"}       # "unsafe": evaluated by a SandboxedEnvironment -> exc=SecurityError
 
 
 def all_ops():
@@ -79,7 +80,7 @@ def _worker(conn, w, cells, msgs, start):
     conn.close()
 
 
-def observe_all(w, cells, msgs, seconds=8):
+def observe_all(w, cells, msgs, seconds=12):
     """run every cell on the real engine in a forked worker.  A modified engine can recurse
     without bound (and swallow asynchronous exceptions in `except <expr>` clauses), so a cell
     that does not answer in time is recorded as non-terminating, the worker is killed and a new
@@ -104,7 +105,24 @@ def observe_all(w, cells, msgs, seconds=8):
                 results[idx] = res
                 i = idx + 1
             else:
-                results[i] = ("X:does-not-terminate logs=", {})
+                # no answer in time: under heavy machine load that is not yet evidence.  Retry this one cell alone in
+                # a fresh worker with a generous limit; only a second silence counts as non-termination.
+                proc.kill()
+                proc.join()
+                p2, c2 = m.Pipe(duplex=False)
+                solo = m.Process(target=_worker, args=(c2, w, cells[:i + 1], msgs, i), daemon=True)
+                solo.start()
+                c2.close()
+                if p2.poll(seconds * 10):
+                    try:
+                        results[i] = p2.recv()[1]
+                    except EOFError:
+                        results[i] = ("X:worker-crashed logs=", {})
+                else:
+                    results[i] = ("X:does-not-terminate logs=", {})
+                solo.kill()
+                solo.join()
+                p2.close()
                 i += 1
                 break
         proc.kill()
@@ -129,6 +147,9 @@ class World:
         self.plain = runtime.Undefined
         self.env = {c: jinja2.Environment(undefined=k) for c, k in self.cls.items()}
         self.env_async = {c: jinja2.Environment(undefined=k, enable_async=True) for c, k in self.cls.items()}
+        from jinja2.sandbox import SandboxedEnvironment
+        self.env_sbx = {c: SandboxedEnvironment(undefined=k) for c, k in self.cls.items()}
+        self.origin = "name"
         self.UndefinedError = jinja2.exceptions.UndefinedError
         self.cache = {}
 
@@ -149,6 +170,8 @@ class World:
             return None
         if o == "list":
             return [1]
+        if o in ("bool", "tuple", "dict", "bytes"):
+            return {"bool": True, "tuple": (1,), "dict": {1: 2}, "bytes": b"abc"}[o]
         if o == "markup":
             from markupsafe import Markup
             return Markup("a")
@@ -159,15 +182,17 @@ class World:
         raise AssertionError(o)
 
     def expr(self, c, text):
+        sbx = "obj.__class__" in text          # the sandbox-made origin needs the sandboxed environment
         key = (c, text)
         if key not in self.cache:
-            self.cache[key] = self.env[c].compile_expression(text, undefined_to_none=False)
+            self.cache[key] = (self.env_sbx if sbx else self.env)[c].compile_expression(text, undefined_to_none=False)
         return self.cache[key]
 
     def tmpl(self, c, text, is_async=False):
         key = (c, "T", text, is_async)
         if key not in self.cache:
-            self.cache[key] = (self.env_async if is_async else self.env)[c].from_string(text)
+            envs = self.env_sbx if "obj.__class__" in text else (self.env_async if is_async else self.env)
+            self.cache[key] = envs[c].from_string(text)
         return self.cache[key]
 
     def make(self, c, origin):
@@ -220,6 +245,8 @@ def token(w, op, u, x, r, path):
         return "false"
     if r is None:
         return "none"
+    if op == "arith:mod:rev:bytes" and r == b"abc":
+        return "builtin"
     if isinstance(r, str):
         if r == "":
             return "str-empty"
@@ -321,7 +348,7 @@ def template_form(op, origin):
     if k == "str":
         return "T", "{{ " + U + " }}"
     if k == "bool":
-        return "E", f"true if {U} else false"
+        return "T", "{{ 'BOOL-TRUE' if " + U + " else 'BOOL-FALSE' }}"
     if k == "iter":
         return "T", "{% for it in " + U + " %}[{{ it }}]{% else %}ITER-EMPTY{% endfor %}"
     if k == "aiter":      # the same loop rendered by an enable_async environment
@@ -377,9 +404,11 @@ def observe(w, c, origin, op, path, msgs):
             if o:
                 v["x"] = x
             if kind in ("T", "A"):
-                r = w.tmpl(c, src, kind == "A").render(**v)
+                r = w.tmpl(c, src, kind == "A" or path == "template-async").render(**v)
                 if r == "ITER-EMPTY" and p[0] not in ("iter", "aiter"):
                     r = "str:ITER-EMPTY"
+                if p[0] == "bool" and r in ("BOOL-TRUE", "BOOL-FALSE"):
+                    r = (r == "BOOL-TRUE")
             else:
                 r = w.expr(c, src)(**v)
         if r == "ITER-EMPTY":
@@ -399,10 +428,12 @@ def observe(w, c, origin, op, path, msgs):
                 out = "ok:debug-str" if (p[0] == "str" and t[4:] == msgs["debug"]) else "ok:str-other"
             else:
                 out = "ok:" + t
-    except w.UndefinedError as e:
+    except w.jinja2.exceptions.TemplateRuntimeError as e:
         m = str(e)
         detail["message"] = m
-        if type(e) is not w.UndefinedError:
+        want_exc = u._undefined_exception if (o not in ("same", "plain") or m == msgs["self"]) else w.UndefinedError
+        detail["exception"] = type(e).__name__
+        if type(e) is not want_exc:
             out = "X:" + type(e).__name__
         elif m == msgs["self"]:
             out = "raise:self"
@@ -532,7 +563,7 @@ def judge(ctx, w, results):
         lw = log_oracle(c, op, real)
         ctx.case(sample=dict(case, observed=real, model=model, documented=spec) if (hash(str(cell)) % 977 == 0) else None,
                  key=(c, origin, op, path))
-        ctx.count(("documented" if spec != "unspecified" else "unspecified") + "/" + path.split("-")[0])
+        ctx.count(("documented" if spec != "unspecified" else "unspecified") + "/" + (path if path == "template-async" else path.split("-")[0]))
         if why:
             sig = f"C21:{c}:{op}:{spec}"
             if op == "arith:add:rev:markup" and c in ("NBC", "LBC") and real.startswith("ok:builtin"):
@@ -565,6 +596,23 @@ def unspecified_probes(ctx, w):
             seen.setdefault(label, {})[c] = out
             ctx.count("unspecified-probe/" + label)
     ctx.extra["unspecified_probes"] = seen
+
+
+def default_logger_history(ctx):
+    """history: make_logging_undefined() WITHOUT a logger, called several times in one process, must still emit
+    each message once (the default logger is shared)"""
+    code = ("import sys, io\nfrom jinja2.runtime import make_logging_undefined\n"
+            "classes = [make_logging_undefined() for _ in range(3)]\n"
+            "str(classes[0](name='x')); list(classes[2](name='y'))\n")
+    rc, out, err = lib.impl_python(code)
+    lines = [ln for ln in err.splitlines() if "Template variable warning" in ln]
+    ctx.case(key=("history", "default-logger"))
+    ctx.count("history/default-logger")
+    if rc != 0 or len(lines) != 2:
+        ctx.reject({"history": "make_logging_undefined() x3, then print one and iterate another", "stderr": err[-300:]},
+                   f"two logged events produced {len(lines)} lines on the default logger (rc={rc})", "C21:history:default-logger-handlers")
+    else:
+        ctx.validated()
 
 
 def probes(ctx, w):
@@ -643,7 +691,12 @@ def run(ctx):
                 cells.append((c, origin, op, "direct"))
                 if op == "getattr":
                     cells += [(c, origin, op, v) for v in ("direct-lead", "direct-trail", "direct-under")]
-                if template_form(op, origin):
+                if op in ("str", "bool") and origin != "unsafe":
+                    cells.append((c, origin, op, "template-async"))     # the same template in an enable_async environment
+                # (a call written in a SANDBOXED template goes through SandboxedEnvironment.call's own gate, which
+                # probes obj.unsafe_callable / alters_data first: C18's subject, not modelled here)
+                light = ctx.tier != "thorough" and op.split(":")[-1] in ("bool", "tuple", "dict", "bytes")   # quick: these kinds directly only
+                if template_form(op, origin) and not (origin == "unsafe" and op == "callt") and not light:
                     cells.append((c, origin, op, "template"))
     results, msgs = run_cells(ctx, w, table_lines, cells)
     # the model's message text must be the real _undefined_message
@@ -657,6 +710,7 @@ def run(ctx):
     judge(ctx, w, results)
     probes(ctx, w)
     unspecified_probes(ctx, w)
+    default_logger_history(ctx)
 
 
 def replay(ctx, data):
